@@ -29,6 +29,10 @@ def PrefixFree {V : Type} (m : PMap V) : Prop :=
 
 def UniqueKeys {V : Type} (m : PMap V) : Prop := (m.map (·.1)).Nodup
 
+/-- key relative to `p`, if `p` is a prefix of it -/
+def strip {V : Type} (p : Path) (kv : Path × V) : Option (Path × V) :=
+  if p.isPrefixOf kv.1 then some (kv.1.drop p.length, kv.2) else none
+
 namespace PMap
 variable {V : Type}
 
